@@ -9,10 +9,12 @@ import RedisVerif.Props.C02
     I <id> <CMD …>      → ok     invocation (ids = global invocation stamps, increasing); an item of a
                                  batched call is `BGET 1 k` / `BSET 1 k v` with the call's interval
     R <id> <reply>      → ok     response, canonical reply text of the harness
+    I <id> T <now> <OP …> / RT <id> <reply>   timed history: SET|SETPX|SETEX|GET|EXISTS|FGET|PGET|FSET|PSET|
+                                 EGET|ESGET|ESET|ESSET|BGET 1 k|MGET 1 k|BSET 1 k v, invoked at virtual time <now>
     CHECK               → lin | not-lin
 -/
 namespace RedisVerif.Driver.C02
-open RedisVerif RedisVerif.Driver RedisVerif.Shards RedisVerif.Shards.Str RedisVerif.Actors
+open RedisVerif RedisVerif.Driver RedisVerif.Shards RedisVerif.Shards.Str RedisVerif.Actors RedisVerif.Shards.Clock
 
 def parseR1 (t : String) : Option R1 :=
   if t == "ok" then some .ok
@@ -24,8 +26,57 @@ def parseR1 (t : String) : Option R1 :=
     | 'b' :: ':' :: 'x' :: cs => (parseHexBytes cs).map R1.bulk
     | _ => none
 
-/-- history so far, newest first -/
-abbrev DState := List (Ev (Cmd sig) Reply)
+/-- histories so far, newest first: untimed, and timed (`I <id> T <now> …`) -/
+structure DState where
+  h : List (Ev (Cmd sig) Reply) := []
+  ht : List (Ev RedisVerif.C02.TReq R1) := []
+
+/-- a timed single-key request: every read path is a GET of the key, every write path a SET -/
+def parseTimed (toks : List String) : Option RedisVerif.C02.TReq :=
+  let key (t : String) : Option Nat := (bytesTok.run [t]).map (fun x => keyCode x.1)
+  let bytes (t : String) : Option Bytes := (bytesTok.run [t]).map (·.1)
+  match toks with
+  | [now, op, k] =>
+    match now.toNat?, key k with
+    | some n, some kc =>
+      if op == "GET" || op == "FGET" || op == "PGET" || op == "EGET" || op == "ESGET" then some (n, (kc, .get))
+      else if op == "EXISTS" then some (n, (kc, .exists))
+      else none
+    | _, _ => none
+  | [now, op, x, y] =>
+    match now.toNat? with
+    | some n =>
+      if (op == "BGET" || op == "MGET") && x == "1" then (key y).map (fun kc => (n, (kc, KOp.get)))
+      else if op == "EXISTS" && x == "1" then (key y).map (fun kc => (n, (kc, KOp.exists)))
+      else if op == "SET" || op == "FSET" || op == "PSET" || op == "ESET" || op == "ESSET" then
+        match key x, bytes y with
+        | some kc, some vb => some (n, (kc, .set vb))
+        | _, _ => none
+      else none
+    | none => none
+  | [now, op, a, b, c] =>
+    match now.toNat? with
+    | some n =>
+      if op == "SETPX" || op == "SETEX" then
+        match key a, bytes b, c.toNat? with
+        | some kc, some vb, some x => some (n, (kc, if op == "SETPX" then .setPx vb x else .setEx vb x))
+        | _, _, _ => none
+      else if op == "BSET" && a == "1" then
+        match key b, bytes c with
+        | some kc, some vb => some (n, (kc, .set vb))
+        | _, _ => none
+      else none
+    | none => none
+  | _ => none
+
+/-- a timed reply: plain, or `m:[r]` (one item of a batch / MGET) -/
+def parseReplyT (t : String) : Option R1 :=
+  match t.toList with
+  | 'm' :: ':' :: '[' :: rest =>
+    match rest.reverse with
+    | ']' :: inner => parseR1 (String.ofList inner.reverse)
+    | _ => none
+  | _ => parseR1 t
 
 /-- a reply: plain, or `m:[r]` for one item of a batched call -/
 def parseReply (t : String) : Option Reply :=
@@ -38,15 +89,25 @@ def parseReply (t : String) : Option Reply :=
 
 def step (d : DState) (line : String) : DState × String :=
   match tokens line with
-  | ["NEW"] => ([], "ok")
-  | ["CHECK"] => (d, if RedisVerif.C02.checkLin d.reverse then "lin" else "not-lin")
+  | ["NEW"] => ({}, "ok")
+  | ["CHECK"] =>
+    (d, if d.ht.isEmpty then (if RedisVerif.C02.checkLin d.h.reverse then "lin" else "not-lin")
+        else (if RedisVerif.C02.checkLinT d.ht.reverse then "lin" else "not-lin"))
+  | "I" :: id :: "T" :: rest =>
+    match id.toNat?, parseTimed rest with
+    | some i, some q => ({ d with ht := .inv i q :: d.ht }, "ok")
+    | _, _ => (d, "bad-op")
+  | ["RT", id, rep] =>
+    match id.toNat?, parseReplyT rep with
+    | some i, some r => ({ d with ht := .res i r :: d.ht }, "ok")
+    | _, _ => (d, "bad-op")
   | ["R", id, rep] =>
     match id.toNat?, parseReply rep with
-    | some i, some r => (.res i r :: d, "ok")
+    | some i, some r => ({ d with h := .res i r :: d.h }, "ok")
     | _, _ => (d, "bad-op")
   | "I" :: id :: rest =>
     match id.toNat?, (C03.parseCmd.run rest) with
-    | some i, some (c, []) => if SingleKey c then (.inv i c :: d, "ok") else (d, "bad-op")
+    | some i, some (c, []) => if SingleKey c then ({ d with h := .inv i c :: d.h }, "ok") else (d, "bad-op")
     | _, _ => (d, "bad-op")
   | _ => (d, "bad-op")
 
